@@ -103,7 +103,9 @@ theorem addPhase2_aux_fields {extra : List Key} (s : State) (k : Key) (m : Mappi
       rw [addPhase2_absorb s k m ha hb]
       have q := releaseAbsorbedKeys_spec _ (releaseActionMappings_spec h).1
       refine ⟨rfl, rfl, q.2.2.1, q.2.2.2.1, ?_⟩
-      intro x; simp only; rw [q.2.2.2.2.2.1 x, f.1, f.2.2.1]
+      intro x
+      show x ∈ (releaseAbsorbedKeys (releaseActionMappings s).1).1.inp ↔ _
+      rw [q.2.2.2.2.2.1 x, f.1, f.2.2.1]
 
 theorem mem_addAbsorbed_left (a b : List Key) (x : Key) (h : x ∈ a) : x ∈ addAbsorbed a b := by
   induction b generalizing a with
